@@ -162,20 +162,20 @@ fn short(v: &Expected) -> String {
 pub fn check_case(c: &Case, st: &mut Stats) -> Option<(String, String)> {
     let schema = make_schema();
     let mut index = if c.short_writes == 0 {
-        Index::builder().schema(schema.clone()).settings(settings_of(&c.cfgs[0])).create_in_ram().ok()?
+        crate::orv!(Index::builder().schema(schema.clone()).settings(settings_of(&c.cfgs[0])).create_in_ram(), "Index::builder().schema(schema.clone()).settings(s")
     } else {
         let sim = crate::simdir::SimDirectory::new();
         sim.set_log_enabled(false);
         sim.set_short_write(if c.short_writes == 1 { crate::simdir::ShortWrite::Half } else { crate::simdir::ShortWrite::OneByte });
         st.count("short_write_cases");
-        Index::builder().schema(schema.clone()).settings(settings_of(&c.cfgs[0])).open_or_create(sim).ok()?
+        crate::orv!(Index::builder().schema(schema.clone()).settings(settings_of(&c.cfgs[0])).open_or_create(sim), "Index::builder().schema(schema.clone()).settings(s")
     };
     let idf = schema.get_field("id").unwrap();
     let mut seg_ids: Vec<SegmentId> = vec![];
     let mut k = 0usize;
     for (si, &sz) in c.segments.iter().enumerate() {
         *index.settings_mut() = settings_of(&c.cfgs[si.min(c.cfgs.len() - 1)]);
-        let mut w: IndexWriter = index.writer_with_num_threads(1, 60_000_000).ok()?;
+        let mut w: IndexWriter = crate::orv!(index.writer_with_num_threads(1, 60_000_000), "index.writer_with_num_threads(1 60_000_000)");
         w.set_merge_policy(Box::new(tantivy::merge_policy::NoMergePolicy));
         for _ in 0..sz {
             let mut d = TantivyDocument::default();
@@ -183,11 +183,11 @@ pub fn check_case(c: &Case, st: &mut Stats) -> Option<(String, String)> {
             for (f, val) in alphabet_doc(&c.docs[k]) {
                 d.add_field_value(schema.get_field(f).unwrap(), &val);
             }
-            w.add_document(d).ok()?;
+            crate::orv!(w.add_document(d), "w.add_document(d)");
             k += 1;
         }
-        w.commit().ok()?;
-        let now: Vec<SegmentId> = index.searchable_segment_ids().ok()?;
+        crate::orv!(w.commit(), "w.commit()");
+        let now: Vec<SegmentId> = crate::orv!(index.searchable_segment_ids(), "index.searchable_segment_ids()");
         for id in now {
             if !seg_ids.contains(&id) {
                 seg_ids.push(id);
@@ -197,16 +197,16 @@ pub fn check_case(c: &Case, st: &mut Stats) -> Option<(String, String)> {
     }
     *index.settings_mut() = settings_of(c.cfgs.last().unwrap());
     {
-        let mut w: IndexWriter = index.writer_with_num_threads(1, 60_000_000).ok()?;
+        let mut w: IndexWriter = crate::orv!(index.writer_with_num_threads(1, 60_000_000), "index.writer_with_num_threads(1 60_000_000)");
         w.set_merge_policy(Box::new(tantivy::merge_policy::NoMergePolicy));
         if !c.deleted.is_empty() {
             for &i in &c.deleted {
                 w.delete_term(Term::from_field_u64(idf, i as u64));
             }
-            w.commit().ok()?;
+            crate::orv!(w.commit(), "w.commit()");
         }
         // a segment whose documents were all deleted disappears with the commit
-        let still: Vec<SegmentId> = index.searchable_segment_ids().ok()?;
+        let still: Vec<SegmentId> = crate::orv!(index.searchable_segment_ids(), "index.searchable_segment_ids()");
         seg_ids.retain(|s| still.contains(s));
         if c.merge > 0 && seg_ids.len() > 1 {
             let mut ids = seg_ids.clone();
@@ -218,13 +218,13 @@ pub fn check_case(c: &Case, st: &mut Stats) -> Option<(String, String)> {
             }
             st.count("merges");
         }
-        w.wait_merging_threads().ok()?;
+        crate::orv!(w.wait_merging_threads(), "w.wait_merging_threads()");
     }
-    let searcher = index.reader().ok()?.searcher();
+    let searcher = crate::orv!(index.reader(), "index.reader()").searcher();
     let alive_ids: Vec<usize> = (0..c.docs.len()).filter(|i| !c.deleted.contains(i)).collect();
     let mut seen: Vec<usize> = vec![];
     for (ord, seg) in searcher.segment_readers().iter().enumerate() {
-        let ids = seg.fast_fields().u64("id").ok()?;
+        let ids = crate::orv!(seg.fast_fields().u64("id"), "seg.fast_fields().u64( id )");
         let alive_docs: Vec<u32> = seg.doc_ids_alive().collect();
         // 1. Searcher::doc for every alive doc
         for &d in &alive_docs {
